@@ -280,19 +280,25 @@ end KCentersM
 section Ctor
 variable [LinearOrder D] [OfNat D 0]
 
-/-- the constructor's normalisation (`minDegree_ = min(degree, minDegree)`, `maxDegree_ = max(maxDegree, degree)`)
+/-- the OLD constructor's normalisation (`minDegree_ = min(degree, minDegree)`, `maxDegree_ = max(maxDegree, degree)`)
 gives parameters for which `split` is defined iff the user's `degree` and `minDegree` are both at least 1. -/
-theorem Gnat.init_paramsOK (degree minDegree maxDegree leaf cache : Nat) (rebal : Bool) :
-    (ParamsOK (Gnat.init (α := α) (D := D) degree minDegree maxDegree leaf cache rebal).params ∧
-      1 ≤ (Gnat.init (α := α) (D := D) degree minDegree maxDegree leaf cache rebal).params.degree) ↔
+theorem Gnat.initOld_paramsOK (degree minDegree maxDegree leaf cache : Nat) (rebal : Bool) :
+    (ParamsOK (Gnat.initOld (α := α) (D := D) degree minDegree maxDegree leaf cache rebal).params ∧
+      1 ≤ (Gnat.initOld (α := α) (D := D) degree minDegree maxDegree leaf cache rebal).params.degree) ↔
     (1 ≤ degree ∧ 1 ≤ minDegree) := by
-  simp only [Gnat.init]
+  simp only [Gnat.initOld]
   constructor
   · rintro ⟨⟨h1, _⟩, h3⟩
     simp only at h1 h3
     omega
   · rintro ⟨h1, h2⟩
     refine ⟨⟨?_, ?_⟩, h1⟩ <;> simp only <;> omega
+
+/-- the constructor as coded since 77efe5ce5: for EVERY argument vector `split` is defined. -/
+theorem Gnat.init_paramsOK (degree minDegree maxDegree leaf cache : Nat) (rebal : Bool) :
+    ParamsOK (Gnat.init (α := α) (D := D) degree minDegree maxDegree leaf cache rebal).params ∧
+      1 ≤ (Gnat.init (α := α) (D := D) degree minDegree maxDegree leaf cache rebal).params.degree := by
+  exact ⟨⟨Nat.le_max_right _ _, Nat.le_max_right _ _⟩, Nat.le_max_right _ _⟩
 
 /-- the freshly constructed structure satisfies the state invariant. -/
 theorem Gnat.init_inv (ctx : Ctx α D U) (degree minDegree maxDegree leaf cache : Nat) (rebal : Bool)
